@@ -20,6 +20,10 @@ SimNext ==
     \/ \E n \in 1..MaxReqs : ResultErr(n)
     \/ \E n \in 1..MaxReqs : ResultForged(n, Rnd(FromsOf("not")), Rnd(Rosters))
     \/ \E c \in {"must", "may", "not"} : \E w \in 1..3 : Push(Rnd(FromsOf(c)), Rnd(PushItems))
+    \* an authorised update that differs from the stored item in exactly one field
+    \/ \E j \in Jids : \E w \in 1..2 :
+         LET near == {i \in Items : view[j].x = 1 /\ Cardinality(Diff(view[j], i)) = 1} IN
+         near # {} /\ Push(Rnd(FromsOf("must")), <<[j |-> j, it |-> Rnd(near)]>>)
     \/ \E w \in 1..4 : Presence(Rnd(Jids), Rnd(Ress), Rnd(BOOLEAN))
 SimSpec == Init /\ [][SimNext]_vars
 =============================================================================
